@@ -27,9 +27,12 @@ impl Files {
     pub fn sort(paths: impl IntoIterator<Item = PathBuf>) -> Result<Self, walkdir::Error> {
         let mut result = Files::empty();
 
+        // Symbolic links are followed: a link to a regular file is classified by the extension of
+        // the link's own name like a regular file, a link to a directory is traversed; a dangling
+        // link and a link to a directory that contains it are reported as errors.
         for entry in paths
             .into_iter()
-            .map(WalkDir::new)
+            .map(|path| WalkDir::new(path).follow_links(true))
             .flat_map(WalkDir::sort_by_file_name)
         {
             let entry = entry?;
